@@ -14,6 +14,18 @@ Proof. vm_compute. reflexivity. Qed.
 Lemma fwd_table : forallb fwd_ok table = true.
 Proof. vm_compute. reflexivity. Qed.
 
+(* USINGZ: each of the four boolean exports hands the registration global of its family (dllCallback64 for the
+   Clipper64 ones, dllCallbackD for the ClipperD ones) to SetZCallback of the clipper it executes, once and in front
+   of Execute; nothing else registers a callback, and the plain configuration never does *)
+Lemma zcb_all : forallb (zcb_ok true) table_z = true /\ forallb (zcb_ok false) table = true.
+Proof. vm_compute. split; reflexivity. Qed.
+
+(* the statement is not vacuous: exactly the four boolean exports are constrained *)
+Lemma zcb_constrained :
+  map f_name (filter (fun f => match zcb_family (f_name f) with Some _ => true | None => false end) table_z) =
+    ["BooleanOp64"; "BooleanOpD"; "BooleanOp_PolyTree64"; "BooleanOp_PolyTreeD"]%string.
+Proof. vm_compute. reflexivity. Qed.
+
 (* all 14 functions are present in both configurations *)
 Lemma table_names :
   map f_name table = map f_name table_z /\
